@@ -64,6 +64,8 @@ class Sess:
         def mk_A():
             return E.new_endpoint("server", "ACC", "INIT", self.j["A"], hb=HB, name="A")
         self.w = World(clock, mk_I, mk_A)
+        self.acker = False
+        self.dying = 0
         self.accepted = {"I": [], "A": []}
         self.open_ids = {"I": [], "A": []}
         self.refused = 0
@@ -73,6 +75,30 @@ class Sess:
         self.trace = []
         self.spin = None
         self.logon_errors = []
+
+    def enable_ackers(self):
+        """applications that answer every order from inside on_message (an execution report back on the same connection)"""
+        from asyncfix import FIXMessage
+        from asyncfix.errors import FIXConnectionError
+        self.acker = True
+        for side in "IA":
+            ep = self.w.ep[side]
+
+            async def on_message(msg, ep=ep, side=side):
+                ident = str(msg.get(11, ""))
+                mt = getattr(msg.msg_type, "value", msg.msg_type)
+                if mt != "D" or ident.startswith("ack"):
+                    return
+                aid = f"ack-{ident}"
+                try:
+                    await ep.send_msg(FIXMessage("8", {11: aid, 17: aid, 37: "O", 150: "0", 39: "0", 54: "1", 55: "X", 14: 0, 151: 1, 6: 0}))
+                    self.accepted[side].append(aid)
+                except FIXConnectionError:
+                    self.refused += 1
+                except Exception:
+                    self.open_ids[side].append(aid)
+                    raise
+            ep.vf_hooks["on_message"] = on_message
 
     async def start(self):
         from vf.sim.net import install_open_connection, settle
@@ -268,13 +294,15 @@ def shortened_gapfill(s):
     return False
 
 
-async def run_history(acc, clock, actions_fn, cid, exhaustive=False):
+async def run_history(acc, clock, actions_fn, cid, exhaustive=False, ackers=False):
     """actions_fn(sess, step) -> action tuple or None to stop.  Returns Sess."""
     from asyncfix.connection import ConnectionState as CS
     from vf.sim.net import SpinAbort, advance, settle
     s = Sess(clock)
     s.flags = {}
     try:
+        if ackers:
+            s.enable_ackers()
         await s.start()
         if not await s.pump():
             return s, "setup"
@@ -307,6 +335,22 @@ async def run_history(acc, clock, actions_fn, cid, exhaustive=False):
             elif k == "time":
                 await advance(a[1])
                 s.trace.append(f"time+{a[1]}")
+            elif k == "deliver_dying":
+                # the connection dies exactly while `side` handles the next frame: the drain() of whatever it writes in reaction raises,
+                # then the link is gone
+                side = a[1]
+                if s.w.in_flight(side):
+                    s.w.drain_once[side] = ConnectionResetError("connection reset while the reply was written")
+                    await s.w.deliver(side)
+                    s.w.drain_once[side] = None
+                    await s.brk("eof", "eof")
+                    s.trace.append(f"deliver{side}+dies-under-the-reply")
+                    s.dying += 1
+            elif k == "burst":
+                n_ = a[2]
+                for _ in range(n_):
+                    await s.send(a[1])
+                s.trace.append(f"burst{a[1]}x{n_}")
             if resend_in_progress(s) and (s.w.link is None or not s.w.link.up):
                 s.flags["break_during_resend"] = True
         how = await s.quiesce(acc)
@@ -496,6 +540,10 @@ def random_actions(rnd, maxbreaks):
         if not w.connected("I"):
             acts += [("reconnect",)] * 4
         acts += [("time", rnd.choice([0.5, 1, 5, 12, 31, 45]))]
+        if s.acker and up:
+            for side in "IA":
+                if w.in_flight(side):
+                    acts += [("deliver_dying", side)] * 2
         a = rnd.choice(acts)
         if a == "BREAK":
             kinds = READ_FAULTS if hostile else ["eof", "eof", "reset", "pipe", "silent"]
@@ -518,13 +566,28 @@ def run_shard(spec, acc):
     async def go(clock):
         if acc.only_case is None or acc.only_case.startswith("exh:"):
             await exhaustive(acc, clock, spec)
+        # bursts: more messages outstanding across one break than any batch size a replay might use
+        bursts = [(side, n_) for n_ in ((300,) if spec["tier"] == "quick" else (257, 300, 520, 1030)) for side in "IA"]
+        for bi, (side, n_) in enumerate(bursts):
+            cid = f"burst:{side}:{n_}"
+            if bi % spec["nshards"] != shard or not acc.want(cid):
+                continue
+            script = [("send", "A" if side == "I" else "I"), ("deliver", side), ("burst", side, n_), ("break", "eof", "eof"), ("reconnect",)]
+
+            def fnb(s_, step, script=script):
+                return script[step] if step < len(script) else None
+            s, how = await run_history(acc, clock, fnb, cid)
+            acc.case_disjoint(nontrivial=True)
+            acc.oracle("breaks-with-traffic-in-flight")
+            acc.add("burst_histories")
+            judge(acc, s, how, cid)
         for c in range(spec["nrand"]):
             cid = f"w:{shard}:{c}"
             if not acc.want(cid):
                 continue
             rnd = random.Random(f"{spec['seed']}:C07:{shard}:{c}")
             fn = random_actions(rnd, maxbreaks=rnd.choice([1, 2, 2, 3, 5]))
-            s, how = await run_history(acc, clock, fn, cid)
+            s, how = await run_history(acc, clock, fn, cid, ackers=rnd.random() < 0.35)
             acc.case(tuple(s.trace), nontrivial=s.breaks_with_traffic > 0)
             if s.breaks_with_traffic:
                 acc.oracle("breaks-with-traffic-in-flight")
@@ -534,6 +597,8 @@ def run_shard(spec, acc):
             acc.add("sends_refused", s.refused)
             acc.add("sends_open", len(s.open_ids["I"]) + len(s.open_ids["A"]))
             acc.add("reconnects", s.w.connects - 1)
+            acc.add("histories_with_applications_replying_from_on_message", 1 if s.acker else 0)
+            acc.add("connections_dying_under_a_handlers_reply", s.dying)
             judge(acc, s, how, cid)
             if c < 2:
                 acc.sample({"trace": s.trace[:40], "end": how}, 2)
